@@ -1,0 +1,44 @@
+//go:build verif
+
+// Contracts for govc (contract-based deductive verification, see /verif/DESIGN.md): the table builders of the lexer
+// generator (package golang itself, not the generated lexer). Comment-only file, compiled only with -tags=verif.
+
+package golang
+
+//@ package items
+//@ func items.(*ItemSets).List
+//@   prop C01
+//@   requires [this] this != nil
+//@   ensures [value] result == this.sets
+//@   assigns nothing
+//@ func items.(*ItemSets).Size
+//@   prop C01
+//@   requires [this] this != nil
+//@   ensures [value] result == len(this.sets)
+//@   assigns nothing
+//@
+//@ package golang
+//@
+//@ # C01/C10: the action row of a lexer state. A state in which no token or ignored-token pattern is completely matched
+//@ # gets Accept = 0 (INVALID) and no ignore name, "so the last live state alone decides the token"; a state whose winning
+//@ # pattern is a token gets the number the token package gives that token (0 = INVALID if the token map does not know
+//@ # it); a state whose winning pattern is an ignored token gets Accept = -1 and the name of the ignored token
+//@ spec rowOf(a items.Action, tokMap *token.TokenMap) int = ite(typeis(a, items.Accept), ite(has(tokMap.IdMap, string(as(a, items.Accept))), tokMap.IdMap[string(as(a, items.Accept))], 0), ite(typeis(a, items.Ignore), -1, 0))
+//@ spec ignOf(a items.Action) string = ite(typeis(a, items.Ignore), string(as(a, items.Ignore)), "")
+//@
+//@ # the row of a state agrees with one of its winning items (folded; unfolded where a row is written)
+//@ opaque spec rowWinner(s *items.ItemSet, accept int, ignore string, tokMap *token.TokenMap) bool = some(w, 0, len(s.Items), wins(s, w) && accept == rowOf(actOf(s.Items[w]), tokMap) && ignore == ignOf(actOf(s.Items[w])))
+//@
+//@ func getActTab
+//@   prop C01 C10
+//@   requires [input] itemsets != nil && tokMap != nil && all(n, 0, len(itemsets.sets), actionInput(itemsets.sets[n]))
+//@   ensures [rows] result != nil && len(result.Actions) == len(itemsets.sets)
+//@   ensures [no-match] all(n, 0, len(itemsets.sets), imp(!stateMatches(itemsets.sets[n]), result.Actions[n].Accept == 0 && result.Actions[n].Ignore == ""))
+//@   ensures [match] all(n, 0, len(itemsets.sets), imp(stateMatches(itemsets.sets[n]), rowWinner(itemsets.sets[n], result.Actions[n].Accept, result.Actions[n].Ignore, tokMap)))
+//@   assigns nothing
+//@   loop 1
+//@     invariant [tab] actab != nil && actab >= old(alloc()) && arr(actab.Actions) >= old(alloc()) && len(actab.Actions) == len(itemsets.sets)
+//@     invariant [untouched] all(n, range_i1, len(itemsets.sets), actab.Actions[n].Accept == 0 && actab.Actions[n].Ignore == "")
+//@     invariant [no-match] all(n, 0, range_i1, imp(!stateMatches(itemsets.sets[n]), actab.Actions[n].Accept == 0 && actab.Actions[n].Ignore == ""))
+//@     invariant [match] all(n, 0, range_i1, imp(stateMatches(itemsets.sets[n]), rowWinner(itemsets.sets[n], actab.Actions[n].Accept, actab.Actions[n].Ignore, tokMap)))
+//@     step [row] imp(stateMatches(set), rowWinner(set, actab.Actions[sno].Accept, actab.Actions[sno].Ignore, tokMap))
